@@ -407,11 +407,60 @@ def r3(chk):
     T = fn_table(repo, "enum_init_block_inner")
     anys = [render(m["args"][0]).replace(" ", "") for m in method_calls(fi.body, "any")]
     want_any = ["|v|(v.attrs.lit(&ctx.struct_attr.ty).is_some()||v.attrs.pat(&ctx.struct_attr.ty).is_some())", "|v|v.attrs.ghost(&ctx.struct_attr.ty,&ctx.kind).is_some()"]
-    from ..src import local_defs, subst_locals
-    defs_ = local_defs(fi)
-    anys_r = [subst_locals(a, defs_).replace("(&ctx.struct_attr.ty)", "(&ctx.struct_attr.ty)") for a in anys]
-    anys_r = [re.sub(r"\((&?ctx\.struct_attr\.ty)\b", lambda m_: "(&ctx.struct_attr.ty" if not m_.group(1).startswith("&") else m_.group(0), a) for a in anys_r]
-    chk.shape("R3", "default-case/predicates", sorted(anys_r) == sorted(want_any) or anys == want_any, False, EXPAND, fi.line, what="default case predicates (any literal/pattern; any ghost variant)", expected=want_any, found=anys_r)
+    # the two predicates of the default-case formula, decided as truth tables of the closures (whatever they are called / however
+    # the counterpart type is passed): "some variant has a literal OR a pattern for this counterpart", "some variant is a ghost"
+    from ..pe import Clos as _Clos, SymObj as _Sym
+    from ..src import local_defs
+    any_calls = [m for m in method_calls(fi.body, "any") if m["args"] and m["args"][0]["k"] == "Closure"]
+    seen_pred = set()
+    for m in any_calls:
+        cl = m["args"][0]
+
+        def mkp():
+            e = Evaluator(repo, IMPL_FILES, opaque=OPAQUE, transparent=TRANSPARENT)
+            return e
+
+        def runp(ev, cl=cl):
+            env = ev.sym_params(fi)
+            for nm, dtxt in local_defs(fi).items():
+                if nm not in env and dtxt in ("&ctx.struct_attr.ty", "ctx.kind.is_from()", "&ctx.kind"):
+                    env[nm] = ev.eval({"k": "Field", "base": {"k": "Field", "base": {"k": "Path", "segs": ["ctx"], "path": "ctx"}, "member": "struct_attr"}, "member": "ty"}, env) if dtxt == "&ctx.struct_attr.ty" else _Sym(nm, ("named", "?"))
+            c = _Clos(cl["params"], cl["body"], env, ev)
+            return ev.truth(ev.call_closure(c, [_Sym("v", ("named", "Variant"))]))
+        try:
+            lvs = explore(mkp, runp)
+        except Exception as ex:
+            chk.inconc("R3", f"default-case predicate not evaluable: {ex!r}"[:160])
+            continue
+        if any(lf.unsupported or lf.panic for lf in lvs):
+            chk.inconc("R3", "default-case predicate not evaluable: " + str([lf.unsupported or lf.panic for lf in lvs if lf.unsupported or lf.panic][:1])[:140])
+            continue
+        atoms = {a for lf in lvs for a in lf.decisions}
+        kind_ = "litpat" if any(".lit(" in a or ".pat(" in a for a in atoms) else ("ghost" if any(".ghost(" in a for a in atoms) else None)
+        if kind_ is None:
+            continue
+        seen_pred.add(kind_)
+        bad_rows = []
+        for lf in lvs:
+            d = lf.decisions
+            if kind_ == "litpat":
+                lit = [v for a, v in d.items() if ".lit(" in a]
+                pat = [v for a, v in d.items() if ".pat(" in a]
+                some = ("Some" in lit) or ("Some" in pat)
+                # a path that answers False without having looked at both lookups is wrong for the unconsulted one being Some
+                complete = bool(lit) and bool(pat)
+                if (lf.value is True) != some or (lf.value is False and not complete):
+                    bad_rows.append({"lit": lit, "pat": pat, "result": lf.value})
+            else:
+                gh = [v for a, v in d.items() if ".ghost(" in a]
+                if (lf.value is True) != ("Some" in gh) or not gh:
+                    bad_rows.append({"ghost": gh, "result": lf.value})
+        chk.expect("R3", f"default-case/predicate[{kind_}]", not bad_rows, EXPAND, m["line"],
+                   "default-case predicate must hold exactly when a variant has a literal or a pattern for this counterpart" if kind_ == "litpat" else "default-case predicate must hold exactly when a variant is a ghost for this conversion",
+                   found=bad_rows[:3])
+    for need in ("litpat", "ghost"):
+        if need not in seen_pred:
+            chk.inconc("R3", f"default-case/predicate[{need}]: no `.any(closure)` consulting the corresponding lookup found in enum_init_block_inner")
     for lf in T["leaves"]:
         if lf.kind != "ok" or lf.toks is None:
             continue
